@@ -80,9 +80,16 @@ def run(ctx):
             a, b = v[2][2], v[2][3]
             if not (isinstance(a, tuple) and a[0] == "index"):
                 a, b = b, a
+            if not (isinstance(a, tuple) and a[0] == "index"):
+                # `nullmap.get(i)` with the None case handled, `*first()`, ...: any one-byte read located in the bitmap
+                for cand in (v[2][2], v[2][3]):
+                    rd_ = cursor.reading(cand)
+                    if rd_ is not None and rd_["width"] == 1 and T.contains(rd_["base"], lambda x: T.is_field(x, "nullmap")):
+                        a = ("index", rd_["base"], None, rd_["off"])
+                        b = v[2][3] if cand is v[2][2] else v[2][2]
             if isinstance(a, tuple) and a[0] == "index" and T.contains(a[1], lambda x: T.is_field(x, "nullmap")):
                 nb += 1
-                byte_ix = T.affine(a[2])
+                byte_ix = a[3] if len(a) > 3 else T.affine(a[2])
                 okb = byte_ix == Aff(0, {("div", col, 8): 1})
                 shl = b if isinstance(b, tuple) and b[0] == "bin" and b[1] == "Shl" else None
                 oks = shl is not None and T.is_const_int(shl[2], 1) and T.affine(shl[3]) == Aff(0, {("rem", col, 8): 1})
